@@ -1,4 +1,5 @@
 import PyomaVerif.Lemmas.Plscf
+import PyomaVerif.Model.Poles
 import PyomaVerif.Lemmas.BlockCompanion
 import Mathlib.Algebra.Polynomial.Roots
 import Mathlib.LinearAlgebra.Matrix.Charpoly.Coeff
@@ -23,13 +24,8 @@ variable {K : Type}
 
 /-! ## glue between `pLSCF` and `rmfd2ac` -/
 
-/-- `A_den = alpha.reshape((-1, Nch, Nch))`: `A_den[k, a, b] = alpha[k*Nch + a, b]`, `n+1` blocks. -/
-def reshapeAd (Nch n : Nat) (alpha : Nat → Nat → K) : Coefs K :=
-  ⟨n + 1, Nch, Nch, fun k a b => alpha (k * Nch + a) b⟩
-
-/-- `B_num = np.moveaxis(beta, 1, 0)` with `beta[o, k, c]`: `B_num[k, o, c] = beta[o, k, c]`. -/
-def moveaxisBn (Nch Nref n : Nat) (beta : Nat → Nat → Nat → K) : Coefs K :=
-  ⟨n + 1, Nref, Nch, fun k o c => beta o k c⟩
+/-! `reshapeAd` (`alpha.reshape((-1, Nch, Nch))`) and `moveaxisBn` (`np.moveaxis(beta, 1, 0)`) are model
+functions: `Model/Poles.lean`, run by the driver op `plscf_all`. -/
 
 /-- the coefficient stack `A[k, a, b]` laid out as `pLSCF`'s `alpha` (`((n+1)·Nch) × Nch`) -/
 def flatA (Nch : Nat) (A : Nat → Nat → Nat → K) (J c : Nat) : K := A (J / Nch) (J % Nch) c
